@@ -75,6 +75,7 @@ def rule_order_table(ctx):
     facts = ctx.facts
     n = 0
     per_class = {}
+    pending_unknown = []
     for b in facts.bodies_of("nucleo"):
         fn = fn_of(b)
         ordinal = {}
@@ -88,7 +89,7 @@ def rule_order_table(ctx):
             where = site(fn, bi)
             key = "%s|%s.%s|%d" % (fn.path, cls, m, ordinal[k])
             if cls is None or cls not in CLASS_TABLE:
-                ctx.fail_closed("unclassified atomic location at %s: %s.%s" % (where, show(recv), m))
+                pending_unknown.append((fn, bi, t, m, recv, where))
                 continue
             per_class[cls] = per_class.get(cls, 0) + 1
             what, need_rel, need_acq = CLASS_TABLE[cls]
@@ -147,6 +148,36 @@ def rule_order_table(ctx):
                             bad = True
             if not bad:
                 ctx.ok(where, "%s.%s %s" % (cls, m, [ordering_of(fn, o) for _, o in ords if _ != "rmw-read"]))
+    # atomics the table does not know: harmless for this property iff nothing is ever published through them, i.e.
+    # every operation on the same field is a write/RMW whose result is unused, or a load whose value only flows into
+    # its function's return value (a statistics counter and its getter); anything else stays INCONCLUSIVE
+    by_field = {}
+    for fn_, bi_, t_, m_, recv_, where_ in pending_unknown:
+        base_, names_ = field_chain(recv_)
+        by_field.setdefault(names_[-1] if names_ else show(recv_), []).append((fn_, bi_, t_, m_, where_))
+    for fld, ops in by_field.items():
+        harmless = True
+        for fn_, bi_, t_, m_, where_ in ops:
+            d_ = t_["dest"]
+            if d_["p"]:
+                harmless = False
+                break
+            uses = uses_of_local(fn_, d_["l"])
+            if m_ == "load" or m_.startswith("fetch_") or m_ == "swap" or m_.startswith("compare_exchange"):
+                for u in uses:
+                    okuse = False
+                    if u[0] == "stmt":
+                        s_ = u[3]
+                        if s_["lhs"]["l"] == 0 and not s_["lhs"]["p"] and "use" in s_["rv"]:
+                            okuse = m_ == "load"
+                    if not okuse:
+                        harmless = False
+        if harmless and all("Atomic<*" not in str(fn_.b["locals"][t_["args"][0].get("move", t_["args"][0].get("copy", {"l": 0}))["l"]]["ty"]) for fn_, bi_, t_, m_, where_ in ops):
+            for fn_, bi_, t_, m_, where_ in ops:
+                ctx.ok(where_, "`%s`: an atomic nothing is published through (results unused / only returned): any ordering is race-free" % fld)
+        else:
+            for fn_, bi_, t_, m_, where_ in ops:
+                ctx.fail_closed("unclassified atomic location at %s: %s.%s" % (where_, fld, m_))
     ctx.floor("atomic memory operations in crate nucleo (live code)", n, 24)
     for cls, floor in (("Entry.active", 4), ("Bucket.entries", 4), ("Vec.inflight", 3)):
         ctx.floor("atomic ops on " + cls, per_class.get(cls, 0), floor)
